@@ -212,19 +212,28 @@ class DataIterator(types.Recoverable, Iterator[_T]):
     start_index = max(self._index, self.config.state.start_index)
     return dc.replace(self.config.state, start_index=start_index)
 
+  def _draw(self) -> _T:
+    """Draws the next element, whatever happens it occupies the next index."""
+    try:
+      result = next(self._it)
+    except StopIteration:
+      raise
+    except Exception:
+      # A continuable source has stepped over the element it raised for.
+      self._index += 1
+      raise
+    self._index += 1
+    return result
+
   def __next__(self) -> _T:
     """Iterates the data source given a shard index."""
     while self._index < self.config.state.start_index:
-      _ = next(self._it)
-      self._index += 1
+      _ = self._draw()
     shard_index = self.config.state.shard_index
     num_shards = self.config.state.num_shards
     while self._index % num_shards != shard_index:
-      _ = next(self._it)
-      self._index += 1
-    result = next(self._it)
-    self._index += 1
-    return result
+      _ = self._draw()
+    return self._draw()
 
   def __iter__(self) -> Self:
     return self
